@@ -2389,6 +2389,10 @@ mut("ok-twin-C06-9-fetch-update-captured", "benign", [], "try_increment_strong, 
 mut("combo-twin-C06-9-no-decrement", "break", ["C06", "C03"], "on top of the twin: the cascade's closure merges the stamp but forgets sub_strong(1)",
     [TW069, ed("src/utils.rs", "next_cnt = cnt_curr.sub_strong(1).with_epoch(next_epoch as _);",
                "next_cnt = cnt_curr.with_epoch(next_epoch as _);")], ["OWN-BALANCE", "CW-CASCADE-DECISION", "CW-CASCADE-MERGE", "CW-SITES"])
+mut("combo-twin-C06-9-decides-on-observed", "break", ["C06", "C03"], "on top of the twin: the captured variable receives the OBSERVED word, so "
+    "the zero test looks at the count before the decrement", [TW069, ed("src/utils.rs", """                    next_cnt = cnt_curr.sub_strong(1).with_epoch(next_epoch as _);
+                    Some(next_cnt.as_raw())""", """                    next_cnt = cnt_curr;
+                    Some(cnt_curr.sub_strong(1).with_epoch(next_epoch as _).as_raw())""")], ["CW-ZERO-DEFERS"])
 
 # std's fetch_update on the count word (round-9 seeds used it twice): modelled as the CAS loop it is
 mut("ok-fetch-update-try-increment", "benign", [], "try_increment_strong written with AtomicU64::fetch_update",
